@@ -290,8 +290,8 @@ theorem M_one_eq_zero_iff {s : Subs} (wf : SubsWF s) : M (fun _ => 1) s = 0 ↔ 
     · have := M_one_pos wf hs; omega
   · intro h; subst h; rfl
 
-/-- well-formed tree: ordered by key, no empty item, no empty event-time list -/
-def TreeWF (t : Tree) : Prop := Sorted t ∧ ∀ p ∈ t, p.2 ≠ [] ∧ SubsWF p.2
+/-- well-formed tree: ordered by key, no empty item, no empty event-time list, items ordered by row -/
+def TreeWF (t : Tree) : Prop := Sorted t ∧ ∀ p ∈ t, p.2 ≠ [] ∧ SubsWF p.2 ∧ Sorted p.2
 
 theorem treeWF_nil : TreeWF [] := ⟨sorted_nil, by simp⟩
 
@@ -299,7 +299,13 @@ theorem subsOf_wf {t : Tree} (wf : TreeWF t) (k : Row) : SubsWF (subsOf k t) := 
   unfold subsOf
   cases h : SAL.get k t with
   | none => intro q hq; simp at hq
-  | some p => exact (wf.2 p (get_mem h).1).2
+  | some p => exact (wf.2 p (get_mem h).1).2.1
+
+theorem subsOf_sorted {t : Tree} (wf : TreeWF t) (k : Row) : Sorted (subsOf k t) := by
+  unfold subsOf
+  cases h : SAL.get k t with
+  | none => exact sorted_nil
+  | some p => exact (wf.2 p (get_mem h).1).2.2
 
 theorem get_isNone_iff {t : Tree} (wf : TreeWF t) (k : Row) :
     (SAL.get k t).isNone = decide (M (fun _ => 1) (subsOf k t) = 0) := by
@@ -308,7 +314,7 @@ theorem get_isNone_iff {t : Tree} (wf : TreeWF t) (k : Row) :
   | none => simp [M]
   | some p =>
     have := wf.2 p (get_mem h).1
-    have := M_one_pos this.2 this.1
+    have := M_one_pos this.2.1 this.1
     simp; omega
 
 theorem subsOf_congr {k1 k2 : Row} (h : cmpList k1 k2 = 0) (t : Tree) : subsOf k1 t = subsOf k2 t := by
@@ -324,6 +330,12 @@ theorem updSubs_wf {x : Row} {ts : List T} {s : Subs} (wf : SubsWF s) : SubsWF (
     rcases mem_put hq with hq | ⟨hv, _⟩
     · exact wf q hq
     · rw [hv]; intro h'; subst h'; simp at h
+
+theorem updSubs_sorted {x : Row} {ts : List T} {s : Subs} (hs : Sorted s) : Sorted (updSubs x ts s) := by
+  unfold updSubs
+  by_cases h : ts.isEmpty
+  · simp only [h, if_true]; exact sorted_del hs
+  · simp only [h]; exact sorted_put hs
 
 theorem M_updSubs {g : Row → Int} (hg : Congr g) (x : Row) (ts : List T) (s : Subs) :
     M g (updSubs x ts s) = M g s - ((timesOf x s).length : Int) * g x + (ts.length : Int) * g x := by
@@ -388,10 +400,11 @@ theorem store_spec {t : Tree} (wf : TreeWF t) (key : Row) (r : Rec) {res : Store
     have hres := Option.some.inj h
     clear h
     have swf : SubsWF (updSubs r.vals ts (subsOf key t)) := updSubs_wf (subsOf_wf wf key)
+    have ssorted : Sorted (updSubs r.vals ts (subsOf key t)) := updSubs_sorted (subsOf_sorted wf key)
     have hMU : ∀ g, Congr g → M g (updSubs r.vals ts (subsOf key t)) = M g (subsOf key t) + sgn r * g r.vals := by
       intro g hg
       rw [M_updSubs hg, hlen, Int.add_mul]; omega
-    generalize updSubs r.vals ts (subsOf key t) = U at hres swf hMU
+    generalize updSubs r.vals ts (subsOf key t) = U at hres swf hMU ssorted
     subst hres
     -- the subs found under any key of the new tree
     have hsubs : ∀ k', subsOf k' (if U.isEmpty then SAL.del key t else SAL.put key U t) =
@@ -416,7 +429,7 @@ theorem store_spec {t : Tree} (wf : TreeWF t) (key : Row) (r : Rec) {res : Store
         rcases mem_put hp with hp | ⟨hv, _⟩
         · exact wf.2 p hp
         · rw [hv]
-          exact ⟨fun h' => he (by simp [h']), swf⟩
+          exact ⟨fun h' => he (by simp [h']), swf, ssorted⟩
     refine ⟨hwf, ?_, ?_, ?_⟩
     · intro k' g hg
       show M g (subsOf k' (if U.isEmpty then SAL.del key t else SAL.put key U t)) = _
@@ -434,6 +447,61 @@ theorem store_spec {t : Tree} (wf : TreeWF t) (key : Row) (r : Rec) {res : Store
       · have hne : U ≠ [] := fun h' => he (by simp [h'])
         have : M (fun _ => 1) U ≠ 0 := fun h' => hne (this.mp h')
         simp [he, this]
+
+/-! ### the stored count of one row -/
+/-- the indicator "stored row equals `x`" -/
+def gEq (x : Row) (y : Row) : Int := if rowEq y x then 1 else 0
+
+theorem congr_gEq (x : Row) : Congr (gEq x) := by
+  intro a b h
+  unfold gEq
+  rw [rowEq_congr_left h x]
+
+theorem M_gEq_zero {x : Row} : ∀ {s : Subs}, (∀ p ∈ s, cmpList x p.1 < 0) → M (gEq x) s = 0
+  | [], _ => rfl
+  | (y, ts) :: rest, h => by
+    have h1 : cmpList x y < 0 := h (y, ts) (by simp)
+    have h2 : rowEq y x = false := by
+      have := cmpList_antisymm x y
+      simp only [rowEq]
+      have : cmpList y x ≠ 0 := by omega
+      simp [this]
+    have ih := M_gEq_zero (s := rest) (fun p hp => h p (by simp [hp]))
+    have hg : gEq x y = 0 := by simp [gEq, h2]
+    simp only [M, hg, ih]; omega
+
+/-- in an ordered item the `EventTimes` found for `x` are all the stored occurrences of `x` -/
+theorem timesOf_length {x : Row} : ∀ {s : Subs}, Sorted s → ((timesOf x s).length : Int) = M (gEq x) s
+  | [], _ => rfl
+  | (y, ts) :: rest, hs => by
+    have hs' := sorted_cons hs
+    have a1 := cmpList_antisymm x y
+    rcases tri (cmpList x y) with h1 | h1 | h1
+    · rw [timesOf_cons_lt _ _ h1]
+      have : M (gEq x) ((y, ts) :: rest) = 0 := by
+        apply M_gEq_zero
+        intro p hp
+        rcases List.mem_cons.mp hp with hp | hp
+        · subst hp; exact h1
+        · exact cmpList_lt_trans h1 (by have := hs'.1 p hp; omega)
+      rw [this]; rfl
+    · rw [timesOf_cons_eq _ _ h1]
+      have h2 : rowEq y x = true := by simp only [rowEq]; have : cmpList y x = 0 := by omega
+                                       simp [this]
+      have h3 : M (gEq x) rest = 0 := by
+        apply M_gEq_zero
+        intro p hp
+        exact cmpList_le_lt_trans (by omega) (hs'.1 p hp)
+      have hg : gEq x y = 1 := by simp [gEq, h2]
+      simp only [M, hg, h3]; omega
+    · rw [timesOf_cons_gt _ _ h1]
+      have h2 : rowEq y x = false := by
+        simp only [rowEq]
+        have : cmpList y x ≠ 0 := by omega
+        simp [this]
+      rw [timesOf_length hs'.2]
+      have hg : gEq x y = 0 := by simp [gEq, h2]
+      simp only [M, hg]; omega
 
 /-! ### what the Scans emit -/
 theorem net_map_times (v : Row) (b : Bool) (etf : T → T) (row : Row) : ∀ ts : List T,
